@@ -8,11 +8,24 @@ SPEC = dict(
           "50,000 steps and the plain parse enters <= 400 rules, so a parse cannot hang by itself. The controller drives the real "
           "pest_debugger::DebuggerContext the way debugger/src/main.rs does (a fresh sync_channel(1) per run; the previous receiver is kept until run "
           "has returned) with operations {add_breakpoint, delete_breakpoint, add_all, delete_all, run(rule), recv (blocking, 10 s), cont, probe "
-          "(wait 0-2000 us, then try_recv), pause, wait_exit}: breakpoint sets are the empty set, all rules, random subsets of the rules the parse "
+          "(wait 0-2000 us, then try_recv), pause, wait_exit, noise(n), run_while_busy}: breakpoint sets are the empty set, all rules, random subsets of the rules the parse "
           "enters (user, silent and built-in rules such as ANY/EOI/ASCII_DIGIT) and names that never occur; edits happen before run, while stopped at "
           "a breakpoint and after the final event; cont is called once per received Breakpoint event (also before any run and after the end); run is "
           "called again only when every delivered event has been received: stopped at a breakpoint with no cont outstanding (re-run mid-parse) or "
           "after Eof/Error (re-run after end), up to 3 re-runs, possibly with another start rule; every history runs its last session to the end. "
+          "NOISE: in one history in five (and in every history of batches over a hand-written many-entries grammar `chunk = { a* ~ b } list = { chunk* }`, "
+          "and in one of the fixed histories) almost every run/cont is followed, BEFORE the matching recv, by a block of n in {100,300,1000,2000} rounds of "
+          "outcome-neutral breakpoint commands in a tight loop - list_breakpoints(); add_breakpoint(\"__never_a_rule__\"); delete_breakpoint(\"__never_a_rule__\") - "
+          "i.e. the controller takes the breakpoint lock again and again WHILE THE PARSE IS RUNNING; such histories use the (rule, input) pair with the most "
+          "rule entries and large breakpoint sets (add_all) so that many stops follow each other; the expected event sequence is unchanged by construction "
+          "and the exact-sequence oracle decides. SLOW-PARSE histories (2 per shard; thorough: one more every 5,000): grammar `x = { \"b\" }  r = { x ~ \"a\"* ~ x ~ x }`, "
+          "input \"b\" + \"a\"*N + \"bb\" with N calibrated at run time so that the plain VM parse takes ~0.7 s (the listener is only called at rule entries, so "
+          "the stretch is one long piece of parsing during which the parser cannot see a stop request); variant 1: add_breakpoint x; run r; recv Breakpoint(x,0); "
+          "run r again while parked; variant 2: ...; cont; run x again AT ONCE (no recv: nothing can have been delivered yet; the executor looks once more with "
+          "try_recv and degrades to an ordinary re-run if something is there); then the new session is driven to its end. For EVERY re-run: when run has "
+          "returned, the previous parser thread's th_exit must be in the log (run_joined itself is not required); if it is not, the OLD receiver is kept and "
+          "watched until it disconnects, a Breakpoint arrives, or 3 x (measured plain parse time) + 1 s (300 ms for ordinary histories) have passed, and what it "
+          "delivered goes into the witness. "
           "Each history runs under verif::reset(seed) with a fresh non-zero seed (1 in 10: seed 0 = no injected delays): hook H4 logs every named "
           "point of both threads with a global sequence number and then delays the calling thread (nothing / yield / 5-65 us spin / 50-350 us sleep / "
           "1-3 ms sleep); the controller writes its own records (call and return of run/cont, every received event, edits, probes) into the same log. "
@@ -22,7 +35,7 @@ SPEC = dict(
           "entry is reached (the set after all edits made before the cont that resumes towards it), then Eof or Error(plain error text); every "
           "received event must be the next expected one and the last session is checked to its final event; stop k of a session is reached "
           "(bp_before_send) only after cont k-1 was called, the park of stop k is left only after cont k or a re-run began its unpark, the final event "
-          "is sent only after every stop was continued or the session was superseded; a probe between a received Breakpoint and its cont, or after "
+          "is sent only after every stop was continued or the session was superseded; when a re-run returns the previous parser thread has logged th_exit; a probe between a received Breakpoint and its cont, or after "
           "the final event, finds nothing; run returns Ok and logs run_joined after run_has_handle; after a re-run the old channel holds no Breakpoint "
           "event (mid-parse: at most the aborted parse's own final event; after end: nothing) and the new channel carries exactly the new parse's "
           "events; cont before any run is Err(RunRuleFirst); cont after the end is Err(EofReached) once th_exit is logged (before that either answer "
@@ -34,7 +47,10 @@ SPEC = dict(
           "answers. Non-trivial = a history with >= 2 delivered Breakpoint events and >= 1 cont; distinct = hashes of (grammar, rule, input, "
           "operation sequence incl. breakpoint edits); behaviour_signatures = distinct INTERLEAVINGS OBSERVED among non-trivial histories = hashes "
           "of the cross-thread order of all logged (thread role, point) pairs. Counters: histories, events_checked, conts, reruns_mid_parse, "
-          "reruns_after_end, breakpoint_edits, probes, interleavings_distinct_in_shard (all histories, summed over shards), history_shapes_* (a shape "
+          "reruns_after_end, reruns_while_parser_busy_in_one_long_rule, slow_parse_histories, breakpoint_edits, probes, noise_blocks, noise_commands_issued, "
+          "noise_commands_while_parser_on_its_way (commands of blocks that ended before the resumed parser logged its next bp_before_send / th_final_sent: a lower "
+          "bound on the commands that overlapped a running parser; noise_blocks_* split the blocks into entirely-before / during / after that point), "
+          "interleavings_distinct_in_shard (all histories, summed over shards), history_shapes_* (a shape "
           "= the pair of per-thread point sequences; shapes seen with >= 2 different merges), notes.fixed_histories_in_this_shard (distinct "
           "interleavings per fixed history), and window:* = how often a racy window was hit: by log order (e.g. cont_before_unpark logged before the "
           "parser's bp_after_send, re-run that found is_done still false after the final event, cont answered Ok between the final send and the "
@@ -58,12 +74,18 @@ SPEC = dict(
                 "is_done store in run (4-16 histories: second stop reached without a cont, then run() joined a parked parser), "
                 "park_timeout(1 ms) instead of park (2-7 histories), listener without the is_done check (4-8 histories), event sent after parking "
                 "(first history: breakpoint reached but event not delivered), and the pre-repair VM abort path (run answered PreviousRunPanic / "
-                "old parse never ended). Thorough tier: the same binary built with -Zsanitizer=thread (-Zbuild-std) runs ~2,000 histories as a "
+                "old parse never ended); and on two independently seeded defects: the listener reading the breakpoint set with try_lock (a hit is "
+                "skipped when the controller holds the lock: event_mismatch in a noisy history in all 16 shards, after 1-63 histories per shard) and "
+                "run() detaching the previous session after 250 ms (previous_session_not_terminated_when_run_returned with the stale Breakpoint on the "
+                "old channel in the witness, at the first slow-parse history of all 16 shards). Thorough tier: the same binary built with -Zsanitizer=thread (-Zbuild-std) runs ~2,000 histories as a "
                 "secondary monitor for data races in the debugger's shared state and std's park/channel."),
     technique="runtime monitoring: schedule stress with seeded delay injection at cfg-guarded hook points + offline trace checker over a globally sequenced two-thread event log (plain listener-VM parse as oracle); ThreadSanitizer as a secondary layer in the thorough tier",
     assumptions=[
         "controller regime of the statement: cont once per received Breakpoint event; run again only when every delivered event was received (stopped with no cont outstanding, or after the final event); a new sync_channel(1) per run with the old receiver alive until run returns, as debugger/src/main.rs does",
-        "breakpoint edits are made only before run, between a received Breakpoint event and its cont, or after the final event, so the set in force at each rule entry is determined by the controller's own record order",
+        "breakpoint edits THAT CAN CHANGE THE OUTCOME are made only before run, between a received Breakpoint event and its cont, or after the final event, so the set in force at each rule entry is determined by the controller's own record order; while the parse is running only outcome-neutral commands are issued (list_breakpoints, add and delete of a name that is not a rule and that no parse enters)",
+        "the slow-parse histories' re-run right after a cont relies on the calibrated stretch (>= 300 ms measured, else the variant is not run) being far longer than the controller's reaction time, so that nothing was delivered since the last received event; the executor still checks with try_recv, and a stall of such a re-run is inconclusive, never a violation",
+        "when run returns, the previous parser thread must already have logged th_exit (the statement's 'starting a new run always terminates the previous one' read as: terminated by the time run has returned); the unchanged run() joins it, so this holds however long the old rule takes",
+        "error texts longer than 600 bytes (they quote the whole input line) are compared by prefix, length and FNV-1a hash",
         "after a mid-parse re-run the aborted parse may still put its own final Eof/Error into the OLD channel; the statement does not speak about it and it is permitted (a Breakpoint there is a violation)",
         "cont after the final event must answer Err(EofReached) only once the parser thread's th_exit is logged; inside the window between the final send and is_done.store(true) either answer is accepted",
         "leaving thread::park before any cont/run began its unpark is counted as a violation (resumed_without_continue): such a resume always ends in a delivery nobody asked for; it cannot occur on Linux without a defect",
